@@ -46,6 +46,7 @@ ASSUMPTIONS = [
     "kind 4 observes the live reloader thread through bounded waits (a missing expected change is reported "
     "after 6 s; an unexpected change is only seen if it happens within 350 ms = >= 7 polling periods)",
 ]
+RELEASE_TOO = True          # the cases also run through the release-profile harness (see ./check)
 EXHAUSTIVE = {"quick": False, "thorough": False}
 TRUSTED = ["harness scheduler (Mutex/Condvar gates) that maps model micro-steps to real thread progress",
            "libc utimensat for explicit mtimes; tmp+rename for atomic file replacement"]
